@@ -60,3 +60,23 @@ Lemma esds_overflow_refuted : refutes w_esds_overflow [(n_esds, RGuard); (n_esds
 Proof. refute w_esds_overflow. Qed.
 Lemma sgpd_seig_rsv_refuted : refutes w_sgpd_seig_rsv [(n_sgpd, RGuard); (n_sgpd, RRsv true 0)].
 Proof. refute w_sgpd_seig_rsv. Qed.
+
+(* dac3 (with two initial zero bytes) and dec3 (two substreams, the second with dependent substreams and ChanLoc, one Reserved
+   byte): typed, exact, fixed points; and what their guards exclude *)
+Definition ex_dac3 : list N := [0; 0; 0; 11; 100; 97; 99; 51; 16; 61; 64].
+Definition ex_dac3_zeroes : list N := [0; 0; 0; 13; 100; 97; 99; 51; 0; 0; 80; 17; 255].
+Definition ex_dec3 : list N := [0; 0; 0; 18; 100; 101; 99; 51; 12; 1; 32; 15; 3; 33; 96; 142; 0; 170].
+Definition w_dac3_short : list N := [0; 0; 0; 10; 100; 97; 99; 51; 18; 52].
+Definition w_dec3_rsv : list N := [0; 0; 0; 13; 100; 101; 99; 51; 7; 192; 33; 15; 0].
+Lemma ex_dac3_ok : fixed_point ex_dac3 /\ fixed_point ex_dac3_zeroes /\
+  match treeof ex_dac3_zeroes with MLeaf _ (LDac3 1 8 0 2 0 15 31 2 true) _ => True | _ => False end.
+Proof. vm_compute. repeat split. Qed.
+Lemma ex_dec3_ok : fixed_point ex_dec3 /\
+  match treeof ex_dec3 with MLeaf _ (LDec3 384 [(0, 16, 0, 0, 7, 1, 1, 289); (1, 16, 1, 0, 7, 0, 0, 0)] [170] true) _ => True | _ => False end.
+Proof. vm_compute. repeat split. Qed.
+(* a dac3 payload of two bytes is accepted (the bit reader's error is not looked at) and written back with three *)
+Lemma dac3_short_refuted : refutes w_dac3_short [(n_dac3, RSizeSmall); (n_dac3, RGuard)].
+Proof. refute w_dac3_short. Qed.
+(* the reserved bit beside BSID of a dec3 substream is dropped and written as 0 *)
+Lemma dec3_rsv_refuted : refutes w_dec3_rsv [(n_dec3, RGuard)].
+Proof. refute w_dec3_rsv. Qed.
